@@ -15,3 +15,4 @@ import PasskeyVerif.Props.C07
 import PasskeyVerif.Props.C06
 import PasskeyVerif.Props.C17
 import PasskeyVerif.Props.C18
+import PasskeyVerif.Props.C19
